@@ -129,14 +129,30 @@ impl VxNode {
 }
 impl VxNodeState {
     // NodeState::validate_payments / apply_payments: node-level payment bookkeeping (C06), not
-    // under contract here; they cannot touch the channel (it is not passed).
+    // under contract here; they cannot touch the channel (it is not passed).  What the Channel units do carry is the
+    // data flow (C06): `node_validated` / `node_applied` are uninterpreted call markers - the only way to establish
+    // them is to call validate_payments (and get Ok) / apply_payments with exactly these arguments.  Unit node_payments
+    // proves what an accepted validate_payments guarantees about the node's ledger.
     #[verifier::external_body]
     pub fn validate_payments(&self, channel_id: &ChannelId, incoming: &VxPayMap, outgoing: &VxPayMap,
-        delta: &BalanceDelta, validator: VxValidator) -> Result<(), ValidationError> { unimplemented!() }
+        delta: &BalanceDelta, validator: VxValidator) -> (r: Result<(), ValidationError>)
+        ensures r.is_ok() ==> node_validated(*channel_id, *incoming, *outgoing)
+    { unimplemented!() }
     #[verifier::external_body]
     pub fn apply_payments(&mut self, channel_id: &ChannelId, incoming: &VxPayMap, outgoing: &VxPayMap,
-        delta: &BalanceDelta, validator: VxValidator, info: Option<&CommitmentInfo2>) { unimplemented!() }
+        delta: &BalanceDelta, validator: VxValidator, info: Option<&CommitmentInfo2>)
+        ensures node_applied(*channel_id, *incoming, *outgoing, vx_opt_val(info))
+    { unimplemented!() }
 }
+// validator_factory.make_validator(network, node id, Some(channel id0)): one validator per channel
+pub uninterp spec fn chan_validator_of(id0: ChannelId) -> VxValidator;
+pub uninterp spec fn node_validated(id: ChannelId, incoming: VxPayMap, outgoing: VxPayMap) -> bool;
+pub uninterp spec fn node_applied(id: ChannelId, incoming: VxPayMap, outgoing: VxPayMap, info: Option<CommitmentInfo2>) -> bool;
+pub open spec fn vx_opt_val<T>(o: Option<&T>) -> Option<T> { match o { Some(x) => Some(*x), None => None } }
+// EnforcementState::incoming_payments_summary / payments_summary (proved against their definition in unit pay_summary):
+// here only "a function of the state and the two optional new infos"
+pub uninterp spec fn pay_in_spec(es: EnforcementState, new_holder: Option<CommitmentInfo2>, new_cp: Option<CommitmentInfo2>) -> VxPayMap;
+pub uninterp spec fn pay_out_spec(es: EnforcementState, new_holder: Option<CommitmentInfo2>, new_cp: Option<CommitmentInfo2>) -> VxPayMap;
 
 #[verifier::external_body]
 pub struct ChainMonitorBase { _p: u8 }
